@@ -302,6 +302,9 @@ def check_node_clone(ctx, i):
     for runner in ("sync", "async"):
         other = ["other-value"]
         inputs = {"items": [f"it{j}" for j in range(n)], ext["other"]: other}
+        override = ["cfg-from-caller"] if rng.random() < 0.4 else None
+        if override is not None:
+            inputs[ext["cfg"]] = override  # a run-time value beats the inner binding, also through a mapping node
         sched = rt.Sched(default="rand", rng=rng) if runner == "async" else None
         o = core.execute(core.with_async(outer, runner == "async", rng), inputs, runner, sched=sched, max_concurrency=rng.choice([None, 1, 2]) if runner == "async" else None)
         ctx.obs["map_calls"] += 1
@@ -321,7 +324,16 @@ def check_node_clone(ctx, i):
         while "inner" not in b.subs:
             b = next(iter(b.subs.values()))
         bound_obj = b.subs["inner"].graph.inputs.bound["cfg"]  # the very object that was bound (the spec is copied on the way)
-        if any(kw["cfg"] is not bound_obj for kw in got):
+        if override is not None:
+            ctx.obs["override_checked"] += 1
+            cfg_cloned = clone is True or (isinstance(clone, list) and ext["cfg"] in clone)
+            if any(kw["cfg"] != override for kw in got):
+                ctx.violation("C10:runtime-value-lost-to-inner-binding", f"{runner}: clone={clone}: the caller supplied {override} for an input the inner graph also binds, items received {core.short([kw['cfg'] for kw in got])}", case)
+            elif not cfg_cloned and any(kw["cfg"] is not override for kw in got):
+                ctx.violation("C10:broadcast-copied", f"{runner}: clone={clone}: the caller's value for the inner-bound input reached a function as a different object", case)
+            elif cfg_cloned and any(kw["cfg"] is override for kw in got):
+                ctx.violation("C10:clone-not-copied", f"{runner}: clone={clone}: the caller's value for the inner-bound input was shared with an item", case)
+        elif any(kw["cfg"] is not bound_obj for kw in got):
             ctx.violation("C10:inner-bound-value-copied", f"{runner}: clone={clone}: the value bound on the inner graph reached an item's function as a different object (bind values bypass clone)", case)
         cloned = clone is True or (isinstance(clone, list) and ext["other"] in clone)
         if not cloned and any(kw["other"] is not other for kw in got):
